@@ -1,5 +1,9 @@
 """C11: where/when Logger::processMessage flushes, what recursiveFlush reaches, what FileSink::flush
-does, and whether RotatingFileSink::send asks size() before writing  ->  SrcFatal.v (src_fatal_cfg)"""
+does, and whether RotatingFileSink::send asks size() before writing  ->  SrcFatal.v (src_fatal_cfg)
+
+Every function body is read TWICE: as compiled without QTLOGGER_NO_THREAD (src_fatal_cfg, the default
+build) and as compiled with it (src_fatal_cfg_nothread, the documented single-threaded configuration):
+the flush after a fatal message must be reachable in both."""
 import re
 from .common import rd, need, fn_body, strip_comments, AnchorError, HDR
 
@@ -7,9 +11,10 @@ MT = {'QtDebugMsg': 'Debug', 'QtWarningMsg': 'Warning', 'QtCriticalMsg': 'Critic
       'QtInfoMsg': 'Info', 'QtSystemMsg': 'Critical'}
 
 
-def _active(body, what):
+def _active(body, what, nothread=False):
     """drop the preprocessor lines of a body, keeping the branch compiled when QTLOGGER_NO_THREAD is
-    NOT defined (the configuration the harness builds); any other conditional is not understood"""
+    NOT defined (nothread=False, the default build) or IS defined (nothread=True); any other
+    conditional is not understood"""
     out, stack = [], []
     for line in body.splitlines():
         s = line.strip()
@@ -19,9 +24,13 @@ def _active(body, what):
                 raise AnchorError('ANCHOR NOT FOUND: %s: unexpected preprocessor line %r' % (what, s))
             k, arg = m.group(1), m.group(2).strip()
             if k == 'ifndef' and arg == 'QTLOGGER_NO_THREAD':
-                stack.append(True)
+                stack.append(not nothread)
             elif k == 'ifdef' and arg == 'QTLOGGER_NO_THREAD':
-                stack.append(False)
+                stack.append(nothread)
+            elif k == 'if' and re.fullmatch(r'!\s*defined\s*\(?\s*QTLOGGER_NO_THREAD\s*\)?', arg):
+                stack.append(not nothread)
+            elif k == 'if' and re.fullmatch(r'defined\s*\(?\s*QTLOGGER_NO_THREAD\s*\)?', arg):
+                stack.append(nothread)
             elif k == 'else' and stack:
                 stack[-1] = not stack[-1]
             elif k == 'endif' and stack:
@@ -127,18 +136,20 @@ def _walk(node, guards, out):
             _walk(els, guards + (('else', cond),), out)
 
 
-def _flat(src, qualname):
-    what = qualname
-    body = _active(fn_body(src, qualname), what)
+def _flat(src, qualname, nothread=False):
+    what = qualname + (' [QTLOGGER_NO_THREAD]' if nothread else '')
+    body = _active(fn_body(src, qualname), what, nothread)
     out = []
     _walk(_parse(body, what), (), out)
     return out
 
 
-def generate():
+def _cfg(nt):
+    """the flush structure of the library as compiled with (nt) / without QTLOGGER_NO_THREAD"""
+    tag = ' [QTLOGGER_NO_THREAD]' if nt else ''
     # ---- Logger::processMessage -------------------------------------------------------------
     lg = strip_comments(rd('logger.cpp'))
-    st = _flat(lg, 'Logger::processMessage')
+    st = _flat(lg, 'Logger::processMessage', nt)
     idx_proc = [i for i, (g, s) in enumerate(st) if re.fullmatch(r'process\(lmsg\)', s)]
     need(len(idx_proc) == 1 and st[idx_proc[0]][0] == (), 'Logger::processMessage: one unconditional process(lmsg)')
     need(any(re.fullmatch(r'LogMessage lmsg\(type, context, message\)', s) for g, s in st),
@@ -153,11 +164,28 @@ def generate():
         i = fl[0]
         pos = 'FBefore' if i < idx_proc[0] else 'FAfter'
         types = None
+        # an early exit in front of the flush: the flush runs only when the exit is not taken.  Understood:
+        # `if (<thread condition>) return;` in the same block as the flush (guards of the flush + one if)
+        for j, (g, s1) in enumerate(st[:i]):
+            if not re.search(r'\b(return|break|continue|goto|throw)\b', s1):
+                continue
+            need(s1 == 'return' and len(g) == len(st[i][0]) + 1 and g[:-1] == st[i][0] and g[-1][0] == 'if',
+                 'Logger::processMessage%s: early exit %r under %r in front of the flush not understood' % (tag, s1, g))
+            c = re.sub(r'^\((.*)\)$', r'\1', g[-1][1]).strip()
+            need(not (nt and 'ownThreadIsRunning' in c), 'Logger::processMessage%s: thread condition %r in the single-threaded configuration' % (tag, c))
+            if re.fullmatch(r'ownThreadIsRunning\(\)', c):
+                cond = 'CSyncOnly' if cond == 'CAlways' else cond
+            elif re.fullmatch(r'!\s*ownThreadIsRunning\(\)', c):
+                cond = 'CAsyncOnly'
+            else:
+                raise AnchorError('ANCHOR NOT FOUND: Logger::processMessage%s: early exit under %r in front of the flush not understood' % (tag, c))
         for kind, c in st[i][0]:
             if kind != 'if':
                 raise AnchorError('ANCHOR NOT FOUND: Logger::processMessage: flush() under %s (%s)' % (kind, c))
             for part in [x.strip() for x in c.split('&&')]:
                 part = re.sub(r'^\((.*)\)$', r'\1', part).strip()
+                if re.fullmatch(r'!?\s*ownThreadIsRunning\(\)', part) and nt:
+                    raise AnchorError('ANCHOR NOT FOUND: Logger::processMessage%s: thread condition %r in the single-threaded configuration' % (tag, part))
                 if re.fullmatch(r'!\s*ownThreadIsRunning\(\)', part):
                     cond = 'CSyncOnly' if cond == 'CAlways' else cond
                 elif re.fullmatch(r'ownThreadIsRunning\(\)', part):
@@ -177,9 +205,9 @@ def generate():
 
     # ---- SimplePipeline::flush / recursiveFlush -------------------------------------------------
     sp = strip_comments(rd('simplepipeline.cpp'))
-    fb = _flat(sp, 'SimplePipeline::flush')
+    fb = _flat(sp, 'SimplePipeline::flush', nt)
     calls_rec = any(g == () and re.fullmatch(r'recursiveFlush\(this\)', s) for g, s in fb)
-    rf = _flat(sp, 'SimplePipeline::recursiveFlush')
+    rf = _flat(sp, 'SimplePipeline::recursiveFlush', nt)
     loop = ('for', 'const auto &handler : pipeline->handlers()')
     rf_sinks = rf_desc = False
     for g, s in rf:
@@ -207,7 +235,7 @@ def generate():
     need(re.search(r'virtual bool flush\(\) \{ return true; \}', re.sub(r'\s+', ' ', strip_comments(rd('sink.h')))), 'sink.h: virtual bool flush()')
     need(re.search(r'bool flush\(\) override;', strip_comments(rd('sinks/filesink.h'))), 'filesink.h: bool flush() override')
     fs = strip_comments(rd('sinks/filesink.cpp'))
-    ff = _flat(fs, 'FileSink::flush')
+    ff = _flat(fs, 'FileSink::flush', nt)
     need(len(ff) == 1 and ff[0][0] == (), 'FileSink::flush: single statement')
     if re.fullmatch(r'return file\(\)->flush\(\)', ff[0][1]):
         real = True
@@ -242,23 +270,37 @@ def generate():
 
     # ---- RotatingFileSink::send ------------------------------------------------------------------
     rs = strip_comments(rd('sinks/rotatingfilesink.cpp'))
-    snd = [s for g, s in _flat(rs, 'RotatingFileSink::send') if g == ()]
+    snd = [s for g, s in _flat(rs, 'RotatingFileSink::send', nt) if g == ()]
     need('FileSink::send(lmsg)' in snd, 'RotatingFileSink::send: FileSink::send(lmsg)')
     presize = False
     if 'd->rotateIfNeeded(lmsg)' in snd:
         need(snd.index('d->rotateIfNeeded(lmsg)') < snd.index('FileSink::send(lmsg)'), 'RotatingFileSink::send: rotateIfNeeded before the write')
-        rin = _flat(rs, 'void rotateIfNeeded')
+        rin = _flat(rs, 'void rotateIfNeeded', nt)
         if any(g == (('if', 'm_maxFileSize > 0'),) and s == 'checkSizeRotation(additionalSize)' for g, s in rin):
-            csr = _flat(rs, 'void checkSizeRotation')
+            csr = _flat(rs, 'void checkSizeRotation', nt)
             need(any(s == 'const auto currentSize = q_ptr->file()->size()' for g, s in csr), 'checkSizeRotation: file()->size()')
             presize = True
+    return {'pos': pos, 'types': types, 'cond': cond, 'rf_sinks': rf_sinks, 'rf_desc': rf_desc, 'real': real,
+            'presize': presize, 'snk_types': snk_types}
+
+
+def _record(name, c):
+    b = lambda x: 'true' if x else 'false'
+    out = 'Definition %s : fatal_cfg := {|\n' % name
+    out += '  ff_pos := %s;\n  ff_types := [%s];\n  ff_cond := %s;\n' % (c['pos'], '; '.join(c['types']), c['cond'])
+    out += '  rf_flush_sinks := %s;\n  rf_descends := %s;\n  fs_flush_real := %s;\n  rot_presize := %s;\n  snk_flush_types := [%s] |}.\n' % (
+        b(c['rf_sinks']), b(c['rf_desc']), b(c['real']), b(c['presize']), '; '.join(c['snk_types']))
+    return out
+
+
+def generate():
     out = HDR % 'src/qtlogger/{logger.cpp,simplepipeline.cpp,sinks/filesink.cpp,sinks/iodevicesink.cpp,sinks/rotatingfilesink.cpp}'
     out += 'Require Import List.\nImport ListNotations.\nRequire Import QtlVerif.FatalDefs.\n'
-    out += 'Definition src_fatal_cfg : fatal_cfg := {|\n'
-    out += '  ff_pos := %s;\n  ff_types := [%s];\n  ff_cond := %s;\n' % (pos, '; '.join(types), cond)
-    b = lambda x: 'true' if x else 'false'
-    out += '  rf_flush_sinks := %s;\n  rf_descends := %s;\n  fs_flush_real := %s;\n  rot_presize := %s;\n  snk_flush_types := [%s] |}.\n' % (
-        b(rf_sinks), b(rf_desc), b(real), b(presize), '; '.join(snk_types))
+    out += '(* the default build: QTLOGGER_NO_THREAD not defined *)\n'
+    out += _record('src_fatal_cfg', _cfg(False))
     # the flag the task names: does processMessage flush after a fatal message of the synchronous logger
     out += 'Definition flush_on_fatal : bool := flushes src_fatal_cfg Fatal.\n'
+    out += '(* the documented single-threaded configuration: the same functions as compiled with -DQTLOGGER_NO_THREAD *)\n'
+    out += _record('src_fatal_cfg_nothread', _cfg(True))
+    out += 'Definition flush_on_fatal_nothread : bool := flushes src_fatal_cfg_nothread Fatal.\n'
     return {'SrcFatal.v': out}
